@@ -71,7 +71,7 @@ def warm():
 
 def generate(seed, tier):
     g = Stream(seed, "gen")
-    fmt = g.choice(OWN * 3 + VIA_RDFLIB)
+    fmt = g.choice(OWN * 2 + ["xml", "json-ld"] * 3 + ["trix", "hext"])
     quad = fmt in ("nquads", "trig", "trix", "json-ld", "hext") and g.chance(0.7)
     subs = [u("s"), u("café/x"), ["b", "b1"], ["b", "b2"], u("ns#frag"), u("sub/s"), u("ns#a:b"), u("ns#x.y."), u("ns#-d~e"), ["b", "bé.x-1"]]
     preds = [u("p"), u("ns#q"), ["u", writers.RDF + "type"], u("p-2"), u("sub/p")]
@@ -174,12 +174,15 @@ def make_doc(cfg):
     if fmt in OWN:
         return writers.WRITERS[fmt](quads, random.Random(cfg["style_seed"]))
     if _own_xml(cfg):
-        if (cfg["style_seed"] // 2) % 3:
+        if (cfg["style_seed"] // 4) % 3:
             # (two thirds of them with the syntax's abbreviated forms)
             return writers.write_rdfxml_rich([q for q in quads if q[3] is None], random.Random(cfg["style_seed"]), ext_base=xb)
         return writers.write_rdfxml([q for q in quads if q[3] is None], random.Random(cfg["style_seed"]), ext_base=xb)
-    if fmt == "json-ld" and (xb or cfg["style_seed"] % 2 == 0):
-        # (half of the JSON-LD documents come from the independent writer - expanded form, @graph, @list - the rest from rdflib)
+    if _own_jsonld(cfg):
+        # (three quarters of the JSON-LD documents come from the independent writer - expanded form, @graph, @list - the rest from rdflib)
+        if (cfg["style_seed"] // 4) % 3:
+            # (two thirds of them with a context: prefixes, @vocab, @base, coercing terms, containers, reverse, embedded nodes)
+            return writers.write_jsonld_compact(quads, random.Random(cfg["style_seed"]), ext_base=xb)
         return writers.write_jsonld(quads, random.Random(cfg["style_seed"]), ext_base=xb)
     ds = Dataset()
     for s, p, o, g in quads:
@@ -193,9 +196,13 @@ def make_doc(cfg):
 
 
 def _own_xml(cfg):
-    """RDF/XML: half of the documents come from the independent writer (xml:base per element, an ambient xml:lang that literals
+    """RDF/XML: three quarters of the documents come from the independent writer (xml:base per element, an ambient xml:lang that literals
     inherit or switch off), the other half from rdflib's serialiser"""
-    return cfg["format"] == "xml" and (cfg["style_seed"] % 2 == 0 or cfg.get("publicid")) and all(t is None or t[0] != "b" or writers._NCNAME.match(t[1]) for q in cfg["quads"] for t in q)
+    return cfg["format"] == "xml" and (cfg["style_seed"] % 4 != 0 or cfg.get("publicid")) and all(t is None or t[0] != "b" or writers._NCNAME.match(t[1]) for q in cfg["quads"] for t in q)
+
+
+def _own_jsonld(cfg):
+    return cfg["format"] == "json-ld" and bool(cfg.get("publicid") or cfg["style_seed"] % 4 != 0)
 
 
 class _NoClose(io.BytesIO):
@@ -458,7 +465,7 @@ def execute(trace, ctx):
 
     try:
         base = parse_with({"data": doc, "format": fmt})
-        if fmt in OWN or _own_xml(cfg) or (fmt == "json-ld" and (cfg.get("publicid") or cfg["style_seed"] % 2 == 0)):
+        if fmt in OWN or _own_xml(cfg) or _own_jsonld(cfg):
             # intended graph: default-graph triples land in the Dataset's default graph
             D = set()
             for s, p, o, g in cfg["quads"] if fmt != "xml" else [q for q in cfg["quads"] if q[3] is None]:
